@@ -10,7 +10,21 @@ import (
 
 var verifTypeWords = []string{"", "schema", "table", "view", "column", "index", "fk", "check", "trigger", "function", "table|view", "column|index|fk", "bogus"}
 
+// verifClassAlpha, when set by a family, narrows the glob alphabet to what character classes
+// are made of (a class needs at least three characters, e.g. "[a]", "[^a]", "[a-b]").
+func verifGlobClass(tag string, n int) string {
+	g := verifString(tag, n)
+	for i := 0; i < n; i++ {
+		c := g[i]
+		verifAssume(verifOr(verifOr(c == 'a', c == 'b'), verifOr(verifOr(c == '[', c == ']'), verifOr(c == '-', c == '^'))))
+	}
+	return g
+}
+
 func verifGlob(tag string, n int) string {
+	if n < 0 {
+		return verifGlobClass(tag, -n)
+	}
 	g := verifString(tag, n)
 	for i := 0; i < n; i++ {
 		c := g[i]
@@ -218,6 +232,8 @@ func verifC19(npat, globLen int, symNames, lite bool) {
 func VerifHarness_C19_p1()    { verifC19(1, 1, false, false) }
 func VerifHarness_C19_p1g2()  { verifC19(1, 2, false, true) }
 func VerifHarness_C19_p1g3()  { verifC19(1, 3, false, true) }
+func VerifHarness_C19_p1c3()  { verifC19(1, -3, false, true) }
+func VerifHarness_C19_p1c4()  { verifC19(1, -4, false, true) }
 func VerifHarness_C19_p1sym() { verifC19(1, 1, true, true) }
 func VerifHarness_C19_p2()    { verifC19(2, 1, false, true) }
 
@@ -275,5 +291,6 @@ func verifC19Schema(globLen int) {
 	}
 }
 
-func VerifHarness_C19_schema1() { verifC19Schema(1) }
-func VerifHarness_C19_schema2() { verifC19Schema(2) }
+func VerifHarness_C19_schema1()  { verifC19Schema(1) }
+func VerifHarness_C19_schema2()  { verifC19Schema(2) }
+func VerifHarness_C19_schemac3() { verifC19Schema(-3) }
